@@ -14,6 +14,7 @@ From Coq Require Import NArith List Bool Arith Lia.
 From LC Require Import Base.Lib Gen.Keyboard_gen Model.Keyboard Gen.Editor_gen Model.Syllable Model.Composition Model.Conversion Model.Editor Model.EditorRun
      Model.EdInst Proofs.CompositionProofs Proofs.EdInstProofs Proofs.EditorInv Proofs.EditorWitness Proofs.EditorSelect Proofs.NoPanic Proofs.KeyEventsOk Proofs.GraphPath Model.Engine Proofs.EngineProofs Proofs.SimpleEngineProofs Model.CapiKeys Model.CapiConfig Model.CapiRun Proofs.CapiKeysProofs.
 From Coq Require Import ZArith Permutation.
+From LC Require Model.Config.
 Import ListNotations.
 Open Scope nat_scope.
 
@@ -365,6 +366,26 @@ Proof.
   eapply (init_inv md_ops lay_ops); try eassumption.
 Qed.
 Print Assumptions C01_no_sequence_of_C_calls_panics_or_hangs.
+
+(* non-vacuity: a history of C calls on the model - Hsu by number, two candidates per page, `a` Space (the syllable c),
+   Down, Right (second page: the words of the alternative reading ei), the selection key `2`, a user phrase added
+   through its Bopomofo string, Enter - commits the chosen word; the added phrase and the learned choice are in
+   the user dictionary; chewing_get_KBType answers 1 *)
+Definition d_hsu_c : memdict :=
+  mkMD (bt_insert ([10240], [27425], 10, 0) (bt_insert ([48], [27448], 5, 0) (bt_insert ([48], [35470], 6, 0) (bt_insert ([48], [21769], 7, 0) []))))%N [] [].
+Definition c_history : list cop :=
+  [CSetKBType 1; CConfigSetInt (Config.iopt_name Config.OCandidatesPerPage) 2; CDefault 97; CHandle kcSpace 0; CHandle kcDown 0; CHandle kcRight 0;
+   CDefault 50; CUserAdd [20013; 25991]%N [12563; 12584; 12581; 32; 12584; 12579; 714]%N; CHandle kcEnter 0]%Z.
+Example C01_c_history_example :
+  Forall cop_fine c_history /\
+  exists c, crun m_conv (cx_init d_hsu_c [] ss_empty 0%N) c_history = Ok c /\
+    c_commit_string c = [35470%N] /\ cx_kbcompat c = 1%N /\
+    md_user (dict (sh (cx_ed c))) = [([8032; 338], [20013; 25991], 1, 0); ([10240], [35470], 10, 6)]%N.
+Proof.
+  split.
+  - repeat (apply Forall_cons; [first [exact I | split; vm_compute; reflexivity]|]). apply Forall_nil.
+  - vm_compute. eexists. repeat split.
+Qed.
 
 (* the premises hold somewhere non-trivial: a dictionary with a system and a user phrase, the conversion
    that gives every symbol its own interval, a history that types, opens the list, pages and commits *)
